@@ -110,6 +110,16 @@ def check_program(corpus, mod_ast, prog, sc, rng, V=3, features=None):
                       "deadline_vars": len(ex.ctx.deadlines)})
     out.queries = qs
     solver = sc.solver
+    # vacuity witness: which (core) rules can fire for some database of the universe
+    fire = sc.ref_stats.get("rule_fire", {})
+    fireable = 0
+    for i, cnd in fire.items():
+        if is_const(cnd):
+            fireable += 1 if cnd else 0
+        else:
+            v, _m, _t = solve(solver, cnd, 20_000)
+            fireable += 1 if v == "sat" else 0
+    out.stats["rules_fireable"] = [fireable, len(fire)]
     if sc.B is not None:
         pass  # constraints of B were added during execute
     for q in qs:
@@ -158,13 +168,12 @@ def check_program(corpus, mod_ast, prog, sc, rng, V=3, features=None):
 
 def replay(corpus, prog, sc, lines, dbA, dbB, kind):
     rec = {"program": prog.name, "script": lines, "problems": []}
+    import subprocess
     try:
-        outs = corpus.run_native([(prog.name, lines)])
-    except Exception as e:
-        if "timed out" in str(e).lower():
-            rec["problems"].append(("nonterm", "native run did not terminate"))
-            return rec
-        raise
+        outs = corpus.run_native([(prog.name, lines)], timeout=40)
+    except subprocess.TimeoutExpired:
+        rec["problems"].append(("nonterm", "native run did not terminate within 40 s"))
+        return rec
     o = outs[0]
     rec["native_output"] = o[:4000]
     if o.strip() == "PANIC":
